@@ -423,6 +423,103 @@ theorem command_location_loads (isWord : Char → Bool) (host : Bool) (root : St
     (by intro s hs'; rw [hsa] at hs'; simp at hs') hs
   ⟨hc, l, hl⟩
 
+/-! ### 2c. writer and reader agree on every value type -/
+
+/-- every name the writer's table knows, the reader's table knows too, with the same behaviour -/
+def Paired (r : Registry) : Prop := ∀ t k, serializerFor r t = some k → deserializerFor r t = some k
+
+theorem stock_paired : Paired stockRegistry := by
+  intro t k h
+  cases t <;> simp_all [serializerFor, deserializerFor, stockRegistry]
+
+theorem addPair_paired (r : Registry) (n : Nat) (k : Kind) (h : Paired r) : Paired (r.addPair n k) := by
+  intro t k' ht
+  simp only [serializerFor, deserializerFor, Registry.addPair] at ht ⊢
+  split
+  · rename_i e; simpa [e] using ht
+  · rename_i e; simp only [e, if_false] at ht; exact h t k' ht
+
+/-- `persisted_with_results_loads`: whatever value type is persisted WITH a result document loads — the
+    writer looks its serializer up by the exact type name and records that very name, and every name
+    in the writer's table is in the reader's (the stock tables; any number of user classes registered
+    as pairs).  So "Unrecognized type" cannot happen to a document collection wrote. -/
+theorem persisted_with_results_loads (r : Registry) (hp : Paired r) (host : Bool) (root : Str) (fs fs' : FS)
+    (t t' : TName) (p : Provider) (d : ResDoc)
+    (hrp : startsWithC sep p.relativePath = false) (hsa : NormalSaveAs p.saveAs)
+    (hs : serializeTyped r host root fs t p = .ok (t', d, fs')) :
+    t' = t ∧ ∃ l, deserializeTyped r root fs' t' d = some l ∧
+      l.relativePath = relOf { p with kind := d.type, serializable := true } ∧
+      (∀ tx, writeText host { p with kind := d.type, serializable := true } = .ok tx → fs'.read l.path = some tx) := by
+  unfold serializeTyped at hs
+  cases hk : serializerFor r t with
+  | none => simp [hk] at hs
+  | some k =>
+    simp only [hk] at hs
+    cases hso : serializeOne host root fs { p with kind := k, serializable := true } with
+    | error f => simp [hso] at hs
+    | ok v =>
+      obtain ⟨d0, fs0⟩ := v
+      simp only [hso, Except.ok.injEq, Prod.mk.injEq] at hs
+      obtain ⟨rfl, rfl, rfl⟩ := hs
+      refine ⟨rfl, ?_⟩
+      have hde := hp t k hk
+      -- the document and the file are those of `serializeOne` on the provider seen as kind k
+      unfold serializeOne at hso
+      cases hwt : writeText host { p with kind := k, serializable := true } with
+      | error f => simp [hwt] at hso
+      | ok tx =>
+        simp only [hwt, Except.ok.injEq, Prod.mk.injEq] at hso
+        obtain ⟨rfl, rfl⟩ := hso
+        have hrel0 := lstripC_of_not_start sep _ (relOf_relative { p with kind := k, serializable := true } hrp hsa)
+        unfold deserializeTyped
+        simp only [hde]
+        unfold deserialize
+        simp only [docOf, hrel0, FS.read_write_same, Option.isSome_some, if_true]
+        refine ⟨_, rfl, rfl, ?_⟩
+        intro ty hty
+        rw [hwt] at hty
+        simp only [Except.ok.injEq] at hty
+        rw [← hty]; exact FS.read_write_same _ _ _
+
+/-- a value whose exact type has no serializer is persisted with its error only: no document result,
+    nothing written under data/ (a subclass of a stock provider without its own registration; the
+    SerializedOutputProvider values of a loaded archive that is persisted again) -/
+theorem unregistered_errors_only (r : Registry) (host : Bool) (root : Str) (fs : FS) (t : TName) (p : Provider)
+    (h : serializerFor r t = none) : serializeTyped r host root fs t p = .error 9 := by
+  simp [serializeTyped, h]
+
+example : serializerFor stockRegistry .serializedText = none ∧ serializerFor stockRegistry (.user 3) = none ∧
+    serializerFor (stockRegistry.addPair 3 .text) (.user 3) = some .text := by decide
+
+theorem unserializable_writes_nothing (host : Bool) (root : Str) (fs : FS) (p : Provider)
+    (h : p.serializable = false) : serializeOne host root fs p = .error 9 := by
+  simp [serializeOne, writeText, h]
+
+/-! ### 2d. raw files behind symbolic links -/
+
+/-- What `cp` writes for a raw spec whose path is a symbolic link (relative, absolute, a chain, into
+    another directory of the root): a REGULAR file at the destination whose bytes are the bytes the
+    path resolves to — never the link. -/
+theorem persistRaw_regular (src : NFS) (fuel : Nat) (arch arch' : NFS) (path dst : Str)
+    (h : persistRaw src fuel arch path dst = some arch') :
+    ∃ b, resolveBytes src fuel path = some b ∧ arch'.get dst = some (.file b) ∧
+      resolveBytes arch' 1 dst = some b := by
+  unfold persistRaw at h
+  cases hb : resolveBytes src fuel path with
+  | none => simp [hb] at h
+  | some b =>
+    simp only [hb, Option.map_some, Option.some.injEq] at h
+    subst h
+    exact ⟨b, rfl, by simp [NFS.get], by simp [resolveBytes, NFS.get]⟩
+
+/-- following a link one step does not change the bytes: a chain of any length persists like its end -/
+theorem resolveBytes_link (src : NFS) (fuel : Nat) (p t : Str) (h : src.get p = some (.link t)) :
+    resolveBytes src (fuel + 1) p = resolveBytes src fuel t := by
+  simp [resolveBytes, h]
+
+example : persistRaw [(['l'], .link ['m']), (['m'], .link ['f']), (['f'], .file ['x', 'y'])] 40 [] ['l'] ['d']
+    = some [(['d'], .file ['x', 'y'])] := by decide
+
 /-! ### 3. one provider end to end -/
 
 /-- Text kinds (text file, command, datasource, both container kinds): a provider whose content is
@@ -430,7 +527,7 @@ theorem command_location_loads (isWord : Char → Bool) (host : Bool) (root : St
     refuses empty content) is serialized, and the provider deserialized from the document reads
     `ls` up to one trailing empty line. -/
 theorem roundtrip_provider (host : Bool) (root : Str) (fs : FS) (p : Provider) (ls : List Str)
-    (hkind : p.kind ≠ .raw) (hsplit : p.unsplit = false) (hload : p.load = .ok ls) (hb : ∀ l ∈ ls, NoBreak l)
+    (hkind : p.kind ≠ .raw) (hser0 : p.serializable = true) (hsplit : p.unsplit = false) (hload : p.load = .ok ls) (hb : ∀ l ∈ ls, NoBreak l)
     (hne : host = true → ls ≠ [])
     (hrp : startsWithC sep p.relativePath = false) (hsa : NormalSaveAs p.saveAs) :
     ∃ d fs' l, serializeOne host root fs p = .ok (d, fs') ∧ deserialize root fs' d = some l ∧
@@ -452,7 +549,7 @@ theorem roundtrip_provider (host : Bool) (root : Str) (fs : FS) (p : Provider) (
 
 example : ∃ d fs' l, serializeOne true ['r'] [] { kind := .command, relativePath := ['l', 's'], load := .ok [['a'], []] } = .ok (d, fs')
     ∧ deserialize ['r'] fs' d = some l ∧ loadedContent fs' l = some [['a']] :=
-  roundtrip_provider true ['r'] [] _ [['a'], []] (by decide) rfl rfl (by decide) (by decide) (by decide)
+  roundtrip_provider true ['r'] [] _ [['a'], []] (by decide) rfl rfl rfl (by decide) (by decide) (by decide)
     (by intro s hs; simp [truthy] at hs)
 
 /-- A command created with split=False has ONE string `s` as content.  It is written as it is, and
@@ -460,7 +557,7 @@ example : ∃ d fs' l, serializeOne true ['r'] [] { kind := .command, relativePa
     between line breaks ("\n", "\r\n", "\r"), without the break, a final piece only if non-empty.
     (Regression of the repaired defect fd0f959: the characters used to be joined one per line.) -/
 theorem unsplit_roundtrip (host : Bool) (root : Str) (fs : FS) (p : Provider) (s : Str)
-    (hkind : p.kind ≠ .raw) (hsplit : p.unsplit = true) (hload : p.load = .ok [s])
+    (hkind : p.kind ≠ .raw) (hser0 : p.serializable = true) (hsplit : p.unsplit = true) (hload : p.load = .ok [s])
     (hne : host = true → s ≠ [])
     (hrp : startsWithC sep p.relativePath = false) (hsa : NormalSaveAs p.saveAs) :
     ∃ d fs' l, serializeOne host root fs p = .ok (d, fs') ∧ deserialize root fs' d = some l ∧
@@ -496,11 +593,11 @@ example : read ['a', 'b', '\n', 'c', 'd', '\n'] = [['a', 'b'], ['c', 'd']] := by
 /-- Raw files: the bytes come back unchanged, whatever they are (no line handling at all; an empty
     file is collected too — RawFileProvider.write never looks at `content`). -/
 theorem roundtrip_raw (host : Bool) (root : Str) (fs : FS) (p : Provider) (bytes : Str)
-    (hkind : p.kind = .raw) (hload : p.load = .ok [bytes])
+    (hkind : p.kind = .raw) (hser0 : p.serializable = true) (hload : p.load = .ok [bytes])
     (hrp : startsWithC sep p.relativePath = false) (hsa : NormalSaveAs p.saveAs) :
     ∃ d fs' l, serializeOne host root fs p = .ok (d, fs') ∧ deserialize root fs' d = some l ∧
       loadedContent fs' l = some [bytes] := by
-  have hwt : writeText host p = .ok bytes := by simp [writeText, hkind, hload]
+  have hwt : writeText host p = .ok bytes := by simp [writeText, hkind, hload, hser0]
   have hrel := lstripC_of_not_start sep _ (relOf_relative p hrp hsa)
   have hser : serializeOne host root fs p =
       .ok (⟨p.kind, docOf p (relOf p)⟩, fs.write (pjoin root (relOf p)) bytes) := by
